@@ -214,6 +214,21 @@ CHECKS = {
              "as matrix cells.",
         technique="Lean 4 proof (lens / aliasing laws of a value-tree heap) + differential correspondence against a shadow heap on generated operation histories",
         ref="DESIGN.md §6 C07"),
+    "C10": dict(
+        category="proof",
+        text="PARTIAL. Lean 4 theorems (CbProps/C10.lean) on the loop shape of parseProgram / the lexer (CbModel/Progress.lean): "
+             "progress_terminates (if every successful step consumes input the loop finishes or fails within len - pos "
+             "iterations and never runs out of fuel), visited_increasing, no_progress_diverges (the hypothesis cannot be "
+             "dropped). Tie: the hypothesis is OBSERVED on the real parser through hook H1 (parse_iter trace must increase "
+             "strictly) and crashes / invalid memory accesses / undefined operations are OBSERVED under ASan+UBSan in "
+             "parse-only mode on the repository's .cb files, token-level mutants, ~260 synthetic nesting inputs up to 8 KiB, "
+             "random bytes, plus full execution of generated pointer-free core programs.",
+        note="Not a proof of memory safety or of the absence of signals: those are runtime facts the model cannot exhibit; "
+             "they are checked by sanitizers on the explored inputs only. Termination inside a single parse routine and of the "
+             "lexer is bounded by the run's timeout, not by a theorem; the preprocessor's termination is covered by the total "
+             "model of C17.",
+        technique="Lean 4 proof of the termination argument (progress => bounded iterations) + hook-observed hypothesis + sanitizer runs on mutated corpus (observation, not proof)",
+        ref="DESIGN.md §6 C10, §11"),
     "C11": dict(
         text="Lean 4 theorems (CbProps/C11.lean) on the instantiation cache and its key (CbModel/Generic.lean, mirroring "
              "generate_cache_key and the lookup-or-instantiate call site): keyL_injective (two uses get the same key only if "
